@@ -43,6 +43,8 @@ def run(ctx):
             f.write("s%d %s\n" % (i, c))
     rc1, mres, _, merr = vlib.run_lines([model], inp)
     rc2, ires, orc, ierr = vlib.run_lines([hs["h_vsm"]], inp)
+    from props import _mpxcheck
+    _mpxcheck.VSM.extend(("s%d" % i, c, mres.get("s%d" % i)) for i, c in enumerate(cases))
     bad = vlib.diff_results(mres, ires)
     ctx.cov["vsm"] = {"sequences": len(cases), "exhaustive_up_to_length": 4 if ctx.tier == "quick" else 5,
                       "alphabet": "3 keys x {10,11,12,5} inserts + 3 erases + clear = 16 ops", "exhaustive": True,
